@@ -67,6 +67,8 @@ func respChunks(kind string, seed int64) [][]byte {
 	switch kind {
 	case "chunked3", "stream3", "cl_stream3":
 		return [][]byte{mk(1000), mk(33000), mk(7)}
+	case "cl_stream_small":
+		return [][]byte{mk(5), mk(4), mk(7)}
 	case "sse":
 		return [][]byte{[]byte("data: one\n\n"), []byte("data: two\n\n"), []byte("event: x\ndata: three\n\n")}
 	}
@@ -143,7 +145,7 @@ func relayBackend(w http.ResponseWriter, r *http.Request) {
 		w.Write(b)
 	default:
 		chunks := respChunks(kind, c.seed)
-		if kind == "cl_stream3" {
+		if kind == "cl_stream3" || kind == "cl_stream_small" {
 			// the backend declares the length and still flushes the parts as they become ready
 			total := 0
 			for _, ch := range chunks {
@@ -156,7 +158,7 @@ func relayBackend(w http.ResponseWriter, r *http.Request) {
 		ok := true
 		for i, ch := range chunks {
 			w.Write(ch)
-			if kind == "stream3" || kind == "sse" || kind == "cl_stream3" {
+			if kind == "stream3" || kind == "sse" || kind == "cl_stream3" || kind == "cl_stream_small" {
 				if fl != nil {
 					fl.Flush()
 				}
@@ -302,7 +304,7 @@ func relayExchange(c *relayCase, which, addr, prefix string) (*respSeen, *exchan
 	var body []byte
 	readErr := ""
 	kind := c.d(8)
-	if (kind == "stream3" || kind == "sse" || kind == "cl_stream3") && resp.StatusCode != 204 && resp.StatusCode != 304 && c.d(1) != "HEAD" {
+	if (kind == "stream3" || kind == "sse" || kind == "cl_stream3" || kind == "cl_stream_small") && resp.StatusCode != 204 && resp.StatusCode != 304 && c.d(1) != "HEAD" {
 		// read chunk by chunk; acknowledge each one to the backend as soon as it has arrived
 		for _, ch := range respChunks(kind, c.seed) {
 			buf := make([]byte, len(ch))
